@@ -1,4 +1,5 @@
 import ElkVerif.Proofs.Hygiene
+import ElkVerif.Proofs.HygieneTerm
 /-!
 # C31 — Macro expansion is hygienic except where explicitly unhygienic
 
@@ -194,7 +195,36 @@ theorem alpha_unhygienic_partial (ρ : Name → Name) (m : Name) (inner : Stack)
     · exact lookup_rename_fresh ρ m b.locals (hfresh b (by simp))
   exact unhygienic_sees_caller_loc m (inner.map (Frame.rename ρ)) (Frame.rename ρ b) outer hp' hn'
 
+/-- **α-equivalence of whole expansions.** `body` is any expansion body without `unhygienic`
+islands: declarations, hygienic identifier occurrences, arbitrarily nested blocks (default /
+conditional / further macro boundaries). Checking it as `MacroBoundaryNode(body)` on the caller's
+stack `outer`, and checking the body with ALL its names consistently renamed (any injective ρ, in
+particular to fresh names) on ANY other caller stack `outer'`, resolves every identifier
+occurrence to the same binding (same list of local ids, in order) — for every fuel. -/
+theorem alpha_body (ρ : Name → Name) (hρ : ∀ a b, ρ a = ρ b → a = b) (fuel : Nat) (body : List Tm)
+    (outer outer' : Stack) (k : Nat) (hh : hygienicOnly fuel body = true) :
+    (checkTms fuel (renameTms ρ fuel body) (⟨.macroBoundary, true, []⟩ :: outer') k).1 =
+      (checkTms fuel body (⟨.macroBoundary, true, []⟩ :: outer) k).1 := by
+  have := (alpha_body_aux ρ hρ fuel body [] ⟨.macroBoundary, true, []⟩ outer outer' k rfl hh).1
+  simpa [Frame.rename] using this
+
+/-- … and the caller's stack is untouched by checking the body (any body, islands included) -/
+theorem body_leaves_caller_stack (fuel : Nat) (body : List Tm) (outer : Stack) (k : Nat) :
+    ((checkTms fuel body (⟨.macroBoundary, true, []⟩ :: outer) k).2.1).tail = outer := by
+  obtain ⟨f', h, _, _⟩ := checkTms_shape fuel body ⟨.macroBoundary, true, []⟩ outer k
+  rw [h]; rfl
+
 /-! ### non-vacuity -/
+
+/-- a body with a nested conditional block, shadowing and reads; caller binds the same names -/
+example :
+    let body : List Tm := [.decl 0, .read 0, .block .conditional [.read 0, .decl 0, .read 0, .read 1], .read 0, .read 1]
+    let outer : Stack := [⟨.default, false, [(0, 100), (1, 101)]⟩]
+    hygienicOnly 10 body = true ∧
+    (checkTms 10 body (⟨.macroBoundary, true, []⟩ :: outer) 0).1 = [some 0, some 0, some 1, none, some 0, none] ∧
+    (checkTms 10 (renameTms (· + 50) 10 body) (⟨.macroBoundary, true, []⟩ :: []) 0).1 = [some 0, some 0, some 1, none, some 0, none] := by
+  decide
+
 
 /-- a balanced body with a nested block and declarations meets `depthAfter 1 body = some 1`,
 runs, and leaves the caller's stack as it was -/
